@@ -4,7 +4,7 @@
         channel holds 4 streams, the bidirectional one 1) and compared with what the application
         saw through the public API.
    691: operation sequences on the real result cell against [Term.cstep]. *)
-From WT.Model Require Import Base Varint Ids Frame Runner Handoff Trace Term Filter.
+From WT.Model Require Import Base Varint Ids Frame Runner Handoff Trace Term Filter Closing.
 From WT.Corr Require Import CorrBase.
 
 (* ---- 681 ---- *)
@@ -141,13 +141,31 @@ Definition model_691 (a : list (list N)) : list (list N) :=
 
 (* ---- 602: a backlog of one kind, then the peer's close capsule: every call of the other kind and
    receive_datagram, pending or later, reports the peer's code and reason (with_driver_error) ---- *)
+Definition enc_kind (k : N) : kind := if k =? 0 then KUni else KBi.
+Definition cap_of (k : kind) : nat := match k with KUni => UNI_CAP | KBi => BI_CAP end.
+Fixpoint ids_from (n : nat) (i : N) : list N := match n with O => [] | S m => i :: ids_from m (i + 1) end.
+Definition count_items (xs : list aout) : N :=
+  N.of_nat (length (filter (fun x => match x with AItem _ => true | _ => false end) xs)).
+
 Definition model_602 (a : list (list N)) : list (list N) :=
+  let k := enc_kind (argn 0 0 a) in
+  let other := match k with KUni => KBi | KBi => KUni end in
+  let count := N.to_nat (N.min (argn 0 1 a) 1000) in
   let code := argn 0 2 a in
   let reason := arg 1 a in
-  match with_driver_error (Runner.DAppClosed code reason) None with
-  | CEApplicationClosed c r => [[1]; [1; c]; r; [1; c]; r; [1; c]; r; [1; c]; r]
-  | _ => [[PANIC]]
-  end.
+  (* the state when the session ends: the backlog fills the channel, the rest of the tasks are parked *)
+  let ids := ids_from count 0 in
+  let backlog := mkkst (firstn (cap_of k) ids) (skipn (cap_of k) ids) [] in
+  let s0 := with_k k (mkcst (mkkst [] [] []) (mkkst [] [] []) true) backlog in
+  let s := worker_exit s0 in
+  let err := match with_driver_error (Runner.DAppClosed code reason) None with
+             | CEApplicationClosed c r => [[1; c]; r]
+             | _ => [[PANIC]; []]
+             end in
+  let of_out (x : aout) := match x with AErr => err | APending => [[8]; []] | AItem _ => [[0]; []] end in
+  let drained := drain_calls (cap_of k) k (S count) s in
+  [[1]] ++ of_out (snd (accept other s)) ++ err ++ of_out (snd (accept other s)) ++ err
+        ++ [[count_items drained]] ++ of_out (last drained APending).
 
 Definition model (f : N) (a : list (list N)) : list (list N) :=
   match f with
